@@ -9,7 +9,11 @@ TRUSTED_BASE = [
     "models coq/Model/*.v validated by correspondence; oracles: idna, ipaddress, NFKC (real libraries)",
     "extraction (ExtrOcamlBasic only), ocaml/driver*.ml, harness",
 ]
-ASSUMPTIONS = ["source-to-model tie is differential testing"]
+ASSUMPTIONS = ["source-to-model tie is differential testing",
+               "the URL-level fixed point is proved for constructor inputs whose authority is absent or a plain ASCII host name "
+               "(no userinfo/port/brackets, not ending in a digit); for userinfo, ports, IP literals and IDNA hosts, and for URLs "
+               "reached through build()/modifiers, the layers (parser inverts printing, canonical components re-encode to "
+               "themselves, constructor output is canonical) are proved and their composition is checked by c03_pred"]
 RULE = ("structured URL strings and random build()/modifier programs in auto-encoding mode; for each result u the second "
         "stage parses str(u) on the same backend and compares string form and the nine components; known-finding classes "
         "(F14 rootless path under an authority scheme, F15 colon in first segment, F17 bracketed non-IPv6, empty authority) "
